@@ -90,6 +90,12 @@ type freeRun struct {
 	timedOut  bool
 	seen      []seenRec
 	pairs     []pairRec
+	evSeen    []evRec
+}
+
+type evRec struct {
+	actor int
+	c     *SimCfg
 }
 
 type pairRec struct {
@@ -524,6 +530,7 @@ func (r *freeRun) actor(ai int, a *Actor, doneCh chan<- int) {
 					r.observed(c, "Events")
 					r.mu.Lock()
 					s := r.serialOf[c]
+					r.evSeen = append(r.evSeen, evRec{ai, c})
 					r.mu.Unlock()
 					resStr = fmt.Sprintf("serial %d", s)
 				default:
@@ -616,6 +623,21 @@ func (r *freeRun) finalChecks() {
 			r.viol("C05", "ViewVersion returned a config together with serial %d, but that config was stored with serial %d", p.s, want)
 			return
 		}
+	}
+	r.mu.Lock()
+	evs := append([]evRec{}, r.evSeen...)
+	r.mu.Unlock()
+	lastEv := map[int]uint64{}
+	for _, e := range evs {
+		s, ok := sof[e.c]
+		if !ok {
+			continue // reported below as never stored
+		}
+		if prev, seen := lastEv[e.actor]; seen && s <= prev {
+			r.viol("C05", "actor %d received version %d from Events after version %d: the Events stream went backwards", e.actor, s, prev)
+			return
+		}
+		lastEv[e.actor] = s
 	}
 	for _, sr := range seen {
 		if _, ok := sof[sr.c]; !ok {
